@@ -46,10 +46,21 @@ ApplyCall(cont, c) ==
          LET sa == Last(cont) n == Len(sa.props)
              t  == [c |-> c.c, tt |-> c.tt, tid |-> c.tid, attr |-> c.attr, at |-> c.at, av |-> c.av, avl |-> c.avl] IN
          [ok |-> TRUE, cont |-> [cont EXCEPT ![Len(cont)] = [sa EXCEPT !.props = [sa.props EXCEPT ![n] = [@ EXCEPT !.tr = Append(@, t)]]]]]
+    \* the Reset of a sub-container (attributes of a CP payload, selectors of a TS payload, proposals of an SA payload, one transform
+    \* list of the last proposal): that list is empty afterwards, everything else is as it was
+    [] c.fn = "SubReset" ->
+         LET p == Last(cont) IN
+         [ok |-> TRUE, cont |-> [cont EXCEPT ![Len(cont)] =
+            CASE c.lvl = "attrs" -> [p EXCEPT !.attrs = << >>]
+              [] c.lvl = "sel" -> [p EXCEPT !.sel = << >>]
+              [] c.lvl = "props" -> [p EXCEPT !.props = << >>]
+              [] c.lvl = "tr" -> [p EXCEPT !.props = [@ EXCEPT ![Len(p.props)] = [@ EXCEPT !.tr = SelectSeq(@, LAMBDA t : t.c # c.c)]]]]]
     [] c.fn = "DeletePayload" -> A([k |-> "D", proto |-> c.proto, spisz |-> c.spisz, num |-> c.num, spis |-> c.spis])
     [] c.fn = "EAP" -> A([k |-> "EAP", eap |-> [code |-> c.code, id |-> c.id, m |-> "none"]])
     [] c.fn = "EAPSuccess" -> A([k |-> "EAP", eap |-> [code |-> 3, id |-> c.id, m |-> "none"]])
     [] c.fn = "EAPfailure" -> A([k |-> "EAP", eap |-> [code |-> 4, id |-> c.id, m |-> "none"]])
+    \* BuildEAP followed by BuildEapExpanded for the type data (what BuildEAP5GStart does, with the caller's vendor id / type / data)
+    [] c.fn = "EAPExpanded" -> A([k |-> "EAP", eap |-> [code |-> c.code, id |-> c.id, m |-> "expanded", vid |-> c.vid, vtype |-> c.vtype, data |-> c.data]])
     [] c.fn = "EAP5GStart" -> A([k |-> "EAP", eap |-> Eap5GStart(c.id)])
     [] c.fn = "EAP5GNAS" -> IF Len(c.nas) = 0 \/ Len(c.nas) > 65535 THEN [ok |-> FALSE, cont |-> cont]
                             ELSE A([k |-> "EAP", eap |-> Eap5GNas(c.id, c.nas)])
@@ -61,7 +72,7 @@ ApplyCall(cont, c) ==
     [] c.fn = "NotifyUP_IP4_ADDRESS" -> A([k |-> "N", proto |-> 0, ntype |-> N_UP_IP4_ADDRESS, spi |-> << >>, data |-> c.ip])
     [] c.fn = "NotifyNAS_TCP_PORT" -> A([k |-> "N", proto |-> 0, ntype |-> N_NAS_TCP_PORT, spi |-> << >>, data |-> U16(c.port)])
 
-SubBuilders == {"ConfigurationAttribute", "IndividualTrafficSelector", "Proposal", "Transform"}
+SubBuilders == {"ConfigurationAttribute", "IndividualTrafficSelector", "Proposal", "Transform", "SubReset"}
 CallEnabled(cont, c) ==
   IF c.fn \notin SubBuilders THEN TRUE
   ELSE IF Len(cont) = 0 THEN FALSE
@@ -69,6 +80,10 @@ CallEnabled(cont, c) ==
          [] c.fn = "IndividualTrafficSelector" -> Last(cont).k \in {"TSi", "TSr"}
          [] c.fn = "Proposal" -> Last(cont).k = "SA"
          [] c.fn = "Transform" -> IF Last(cont).k = "SA" THEN Len(Last(cont).props) > 0 ELSE FALSE
+         [] c.fn = "SubReset" -> CASE c.lvl = "attrs" -> Last(cont).k = "CP"
+                                   [] c.lvl = "sel" -> Last(cont).k \in {"TSi", "TSr"}
+                                   [] c.lvl = "props" -> Last(cont).k = "SA"
+                                   [] c.lvl = "tr" -> IF Last(cont).k = "SA" THEN Len(Last(cont).props) > 0 ELSE FALSE
 
 \* ---- what encoding the built container must give: the reference octets when every payload is in the
 \* encodable domain; an error (never a truncated field) when an argument exceeds a wire limit
